@@ -2,15 +2,30 @@
 // (property C13, DESIGN.md §5 C13; level fault_enumeration).
 //
 // Programs with Cache / CachePartial / ReadCache at the head of a pipeline, in the
-// middle, before a shuffle, after a shuffle and under Head run on both executors with
-// the cache prefix on the fault-injecting vfs:// file system. Enumerated: every subset
-// of pre-existing (valid) shard files; every file operation of the failure-free
-// history failed (Fail, FailPartial for writes) and crashed; in the thorough tier
-// ordered pairs of faults for the smallest writer programs; the upstream computation
-// failing by itself after r rows. After every first run a second run happens in a
-// fresh session over whatever files are left.
+// middle, before a shuffle, after a shuffle and under Head (progs.go) run on both
+// executors with the cache prefix on the fault-injecting vfs:// file system.
+// Enumerated, simplest first:
 //
-// Cases execute in child processes (child.go); this file enumerates and judges.
+//  1. every subset of pre-existing (valid) shard files, no fault;
+//  2. the computation under the cache failing by itself: the source of shard s returns
+//     an error after r rows, for every s and r;
+//  3. every file operation of the failure-free history of (program, executor, subset)
+//     failed (Fail; FailPartial for writes) and crashed (Crash = the process dies:
+//     pending files vanish, every later operation fails);
+//  4. ordered pairs: a failed operation, then any operation of the rest of THAT history
+//     failed or crashed (quick: the smallest writer program on the local executor;
+//     thorough: the two smallest on both executors).
+//
+// After every first run a second, fault-free run happens in a fresh session over
+// whatever files are left. Oracle (judgeRun, judgeFiles): a run that succeeds yields the
+// rows of the uncached program; a fault-free run succeeds (ReadCache: if all files are
+// there) and calls no upstream user function of a shard whose file existed when it
+// started (Cache/ReadCache: only if all existed); after every run each shard file is
+// absent or a complete zstd frame that the cache reader decodes, up to a clean end of
+// stream, to exactly the rows of that shard; a fault-free completed run that read all
+// shards to the end leaves all files.
+//
+// Runs execute in child processes (child.go); this file enumerates and judges.
 package main
 
 import (
@@ -1002,9 +1017,7 @@ func (c *checker) faultCases(jobs []*job, keep func(*job) bool, budget time.Dura
 	for attempt := 0; attempt < 3 && len(jobs) > 0; attempt++ {
 		var retry []*job
 		// a retried case must not be judged twice: decide before first()
-		var todo []*job
-		todo = jobs
-		skipped := c.runCasesFiltered(todo, budget, func(j *job, res *result) bool {
+		skipped := c.runCasesFiltered(jobs, budget, func(j *job, res *result) bool {
 			if !res.Hang && len(res.Run.Fired) < len(j.Faults) && attempt < 2 && len(j.Faults) == 1 {
 				retry = append(retry, j)
 				return false
@@ -1189,7 +1202,6 @@ func (c *checker) confirm() {
 	for _, sig := range sigs {
 		pv := c.pending[sig]
 		again := false
-		var confirmedBy *job
 		for _, orig := range pv.cases {
 			for i := 0; i < 2 && !again; i++ {
 				j := *orig
@@ -1210,7 +1222,6 @@ func (c *checker) confirm() {
 				for _, v := range vs {
 					if v.sig == sig {
 						again = true
-						confirmedBy = orig
 						pv.v = v
 					}
 				}
@@ -1224,7 +1235,6 @@ func (c *checker) confirm() {
 			if pv.count > 1 {
 				what += fmt.Sprintf(" [%d cases with this signature]", pv.count)
 			}
-			_ = confirmedBy
 			c.r.Violate(sig, what, pv.v.detail)
 		} else {
 			c.r.Note("unconfirmed (seen in %d case(s), not reproduced in re-runs of %d of them): %s: %s", pv.count, len(pv.cases), sig, pv.v.what)
